@@ -22,6 +22,25 @@ def summary (o : Op) (divs : List Nat) : Json :=
   Json.mkObj [("min", (o.min : Nat)), ("max", (o.max : Nat)),
     ("mods", ofList (divs.map fun d => sortedNats (o.modulo d)))]
 
+/-- fields of a structure / union definition section, sealed or delimited: (is a union, field types) -/
+def sectionOf : Ty → R (Bool × List Ty)
+  | .struct fs => pure (false, fs)
+  | .union fs => pure (true, fs)
+  | .delim (.struct fs) _ => pure (false, fs)
+  | .delim (.union fs) _ => pure (true, fs)
+  | _ => throw "bad-op"
+
+/-- A definition program (suite layout, query `prog`): the statements of one definition section in order,
+    `f` = the next field, `p` / `u` = an evaluation of `_offset_`, anything else (constants, comments, blank lines) has
+    no layout.  Every evaluation is `DataSchemaBuilder.offset` over the fields added so far, expanded. -/
+def progOut (isUnion : Bool) (fs : List Ty) : List Char → Nat → List Json
+  | [], _ => []
+  | c :: cs, j =>
+      if c == 'f' then progOut isUnion fs cs (j + 1)
+      else if c == 'p' || c == 'u' then
+        sortedNats (offsetIntrinsic isUnion (fs.take j)).expand :: progOut isUnion fs cs j
+      else progOut isUnion fs cs j
+
 def query (t : Ty) (j : Json) : R Json := do
   let a ← arr j
   let tag ← str (← nth a 0)
@@ -54,6 +73,22 @@ def query (t : Ty) (j : Json) : R Json := do
       let divs ← nats (← nth a 2)
       if base.isEmpty || divs.contains 0 then throw "bad-op"
       pure (ofList ((fieldOffsets (.leaf base) t).map fun o => summary o divs))
+  | "xoffsets" => do
+      -- the field offsets by numerical expansion
+      let base ← nats (← nth a 1)
+      if base.isEmpty then throw "bad-op"
+      pure (ofList ((fieldOffsets (.leaf base) t).map fun o => sortedNats o.expand))
+  | "prog" => do
+      let plan ← str (← nth a 1)
+      let (u1, f1) ← sectionOf t
+      let first := ofList (progOut u1 f1 plan.toList 0)
+      let rj ← nth a 2
+      if rj.isNull then pure (ofList [first, ofList []])
+      else
+        let resp ← parseTy rj
+        let plan2 ← str (← nth a 3)
+        let (u2, f2) ← sectionOf resp
+        pure (ofList [first, ofList (progOut u2 f2 plan2.toList 0)])
   | "elemoffsets" => do
       let base ← nats (← nth a 1)
       let divs ← nats (← nth a 2)
@@ -90,7 +125,16 @@ def handle (j : Json) : R Json := do
     return Json.mkObj [("res", "rejected")]
   let qs ← arr (← field j "qs")
   let outs ← qs.mapM (query t)
-  pure (Json.mkObj [("res", "ok"), ("out", ofList outs)])
+  match fieldOpt j "script" with
+  | none => pure (Json.mkObj [("res", "ok"), ("out", ofList outs)])
+  | some sj => do
+      -- a history script over a pool of types: the model has no state, every step is answered from the type alone
+      let steps ← arr sj
+      let souts ← steps.mapM fun st => do
+        let sa ← arr st
+        let ty ← parseTy (← nth sa 0)
+        if !ty.wf then pure (Json.str "rejected") else query ty (← nth sa 1)
+      pure (Json.mkObj [("res", "ok"), ("out", ofList outs), ("sout", ofList souts)])
 
 /-- Suite `evolve` (C14 layout half): the same queries on a container and on its revision. -/
 def handlePair (j : Json) : R Json := do
